@@ -17,8 +17,8 @@
 //     oci.New and the harness' own readers, against the generator's ground
 //     truth (a ten-line simulator of blob set and tag map): the oracle.
 //
-// AutoGC is off (plain Delete) and GC is not scripted: defects of
-// Delete-with-AutoGC / GC belong to C08/C09.
+// Scripts run with AutoGC off (plain Delete) or on (cascades), with GC, with
+// earlier killed processes, with sha512 digests, and for the initialisation itself.
 package main
 
 import (
@@ -33,6 +33,7 @@ import (
 	"strconv"
 	"strings"
 	"sync"
+	"syscall"
 
 	"oras.land/oras-go/v2/content/oci"
 	"verifharness/common"
@@ -56,12 +57,50 @@ const (
 type sim struct {
 	blobs map[int]bool
 	tags  map[int]int // ref -> blob
+	// AutoSaveIndex off: what a reader of the directory is entitled to see is the
+	// tag map of the last SaveIndex, not the one in memory
+	noAuto bool
+	saved  map[int]int
+	gcUniv bool // the universe with referrers (blob 7 is a proper manifest there)
+	// every blob index.json has an entry for, named or by digest only (a pushed manifest,
+	// anything that was tagged), in memory and as last saved
+	entries      map[int]bool
+	savedEntries map[int]bool
 }
 
-func newSim() *sim { return &sim{blobs: map[int]bool{}, tags: map[int]int{}} }
+func newSim() *sim {
+	return &sim{blobs: map[int]bool{}, tags: map[int]int{}, saved: map[int]int{}, entries: map[int]bool{}, savedEntries: map[int]bool{}}
+}
+
+func (s *sim) isManifest(id int) bool {
+	if s.gcUniv {
+		return id >= 4 && id <= 7
+	}
+	return id == 4 || id == 5 || id == 6 || id == 1002
+}
+
+func (s *sim) entryString() string {
+	var xs []string
+	for id := range s.savedEntries {
+		xs = append(xs, strconv.Itoa(id))
+	}
+	sort.Strings(xs)
+	return strings.Join(xs, ",")
+}
 
 func (s *sim) clone() *sim {
 	c := newSim()
+	c.noAuto = s.noAuto
+	c.gcUniv = s.gcUniv
+	for k := range s.entries {
+		c.entries[k] = true
+	}
+	for k := range s.savedEntries {
+		c.savedEntries[k] = true
+	}
+	for k, v := range s.saved {
+		c.saved[k] = v
+	}
 	for k, v := range s.blobs {
 		c.blobs[k] = v
 	}
@@ -72,16 +111,41 @@ func (s *sim) clone() *sim {
 }
 
 func (s *sim) apply(o ck.Op) {
+	s.applyMem(o)
+	if !s.noAuto || o.Kind == "saveindex" {
+		s.saved = map[int]int{}
+		for k, v := range s.tags {
+			s.saved[k] = v
+		}
+		s.savedEntries = map[int]bool{}
+		for k := range s.entries {
+			s.savedEntries[k] = true
+		}
+	}
+}
+
+// undecodable: ids of blobs with a manifest media type whose bytes are not JSON:
+// Push stores nothing and fails, Tag is refused
+var undecodable = map[int]bool{7: true}
+
+func (s *sim) applyMem(o ck.Op) {
 	switch o.Kind {
 	case "push":
-		s.blobs[o.Blob] = true
+		if !(undecodable[o.Blob] && !s.gcUniv) {
+			if !s.blobs[o.Blob] && s.isManifest(o.Blob) {
+				s.entries[o.Blob] = true // a pushed manifest is entered by digest
+			}
+			s.blobs[o.Blob] = true
+		}
 	case "tag":
-		if s.blobs[o.Blob] {
+		if s.blobs[o.Blob] && !(undecodable[o.Blob] && !s.gcUniv) {
+			s.entries[o.Blob] = true
 			s.tags[o.Ref] = o.Blob
 		}
 	case "untag":
 		delete(s.tags, o.Ref)
 	case "delete":
+		delete(s.entries, o.Blob)
 		if s.blobs[o.Blob] {
 			delete(s.blobs, o.Blob)
 			for r, b := range s.tags {
@@ -95,7 +159,7 @@ func (s *sim) apply(o ck.Op) {
 
 func (s *sim) tagString(sc *ck.Script) string {
 	var xs []string
-	for r, b := range s.tags {
+	for r, b := range s.saved {
 		xs = append(xs, ck.RefName(r)+"="+sc.Blob(b).Digest())
 	}
 	sort.Strings(xs)
@@ -153,6 +217,8 @@ func universe(r *common.Rand, big bool) []ck.Blob {
 		ck.Blob{ID: 4, Kind: "manifest", MediaType: mtManifest, JSON: manifestJSON(&bs[2], []*ck.Blob{&bs[0]}, salt)},
 		ck.Blob{ID: 5, Kind: "manifest", MediaType: mtManifest, JSON: manifestJSON(&bs[2], []*ck.Blob{&bs[0], &bs[1]}, salt+1)},
 		ck.Blob{ID: 6, Kind: "manifest", MediaType: mtManifest, JSON: manifestJSON(&bs[2], nil, salt+2)},
+		ck.Blob{ID: 7, Kind: "badmanifest", Fill: r.U64() >> 12, MediaType: mtManifest},
+		ck.Blob{ID: 2001, Alg: "sha384", Kind: "raw", Size: 1 + r.Intn(40000), Fill: r.U64() >> 12, MediaType: mtLayer},
 		l512,
 		ck.Blob{ID: 1002, Alg: "sha512", Kind: "manifest", MediaType: mtManifest, JSON: manifestJSON(&bs[2], []*ck.Blob{&l512}, salt+3)},
 	)
@@ -345,7 +411,9 @@ var finalKinds = []string{
 	"untag", "untag-missing",
 	"delete-tagged", "delete-digest-only", "delete-raw", "delete-missing",
 	"saveindex", "reopen",
-	"push-sha512", "push-manifest-sha512", "delete-sha512",
+	"push-sha512", "push-manifest-sha512", "delete-sha512", "push-sha384",
+	"delete-after-variant-tag", "delete-variant", "tag-variant",
+	"push-undecodable", "tag-undecodable", "tag-undecodable-after-crash",
 }
 
 // realize extends the history so that the situation exists and returns the final op.
@@ -430,9 +498,46 @@ func realize(r *common.Rand, kind string, s *sim, hist *[]ck.Op) ck.Op {
 	case "push-sha512":
 		ensure(1001, false)
 		return ck.Op{Kind: "push", Blob: 1001}
+	case "push-sha384":
+		ensure(2001, false)
+		return ck.Op{Kind: "push", Blob: 2001}
 	case "push-manifest-sha512":
 		ensure(1002, false)
 		return ck.Op{Kind: "push", Blob: 1002}
+	case "delete-after-variant-tag":
+		// tagged with a digest+size-only descriptor, deleted with the full one
+		ensure(man, true)
+		do(ck.Op{Kind: "tag", Blob: man, Ref: 6, Variant: true})
+		return ck.Op{Kind: "delete", Blob: man}
+	case "delete-variant":
+		ensure(man, true)
+		do(ck.Op{Kind: "tag", Blob: man, Ref: 6})
+		return ck.Op{Kind: "delete", Blob: man, Variant: true}
+	case "tag-variant":
+		ensure(man, true)
+		if r.Bool() {
+			do(ck.Op{Kind: "tag", Blob: man, Ref: 6})
+		}
+		return ck.Op{Kind: "tag", Blob: man, Ref: 6, Variant: true}
+	case "push-undecodable":
+		ensure(7, false)
+		return ck.Op{Kind: "push", Blob: 7}
+	case "tag-undecodable", "tag-undecodable-after-crash":
+		if !s.blobs[7] {
+			do(ck.Op{Kind: "push", Blob: 7})
+		}
+		return ck.Op{Kind: "tag", Blob: 7, Ref: 8}
+	case "saveindex-after-delete":
+		ensure(man, true)
+		do(ck.Op{Kind: "tag", Blob: man, Ref: 1})
+		do(ck.Op{Kind: "saveindex"})
+		do(ck.Op{Kind: "delete", Blob: man})
+		return ck.Op{Kind: "saveindex"}
+	case "delete-saved-tagged":
+		ensure(man, true)
+		do(ck.Op{Kind: "tag", Blob: man, Ref: 1})
+		do(ck.Op{Kind: "saveindex"})
+		return ck.Op{Kind: "delete", Blob: man}
 	case "delete-sha512":
 		ensure(1002, true)
 		do(ck.Op{Kind: "tag", Blob: 1002, Ref: 5})
@@ -538,6 +643,9 @@ func modelScript(sc *ck.Script, sizes map[int][]int64, hist []string, final stri
 		if b.IsManifest() {
 			m = 1
 		}
+		if b.Undecodable() {
+			m = 2
+		}
 		n := len(sizes[b.ID]) // 0 when never ingested: the model never looks at it then
 		bl = append(bl, fmt.Sprintf("%d:%d:%d", b.ID, n, m))
 	}
@@ -547,7 +655,11 @@ func modelScript(sc *ck.Script, sizes map[int][]int64, hist []string, final stri
 		hs = append(hs, fmt.Sprintf("crash:%d:%s", seg.J, seg.FinalEnc))
 	}
 	hs = append(hs, hist...)
-	return "blobs=" + strings.Join(bl, ",") + ";hist=" + strings.Join(hs, ",") + ";final=" + final
+	auto := ""
+	if sc.NoAutoSave {
+		auto = "autosave=0;"
+	}
+	return auto + "blobs=" + strings.Join(bl, ",") + ";hist=" + strings.Join(hs, ",") + ";final=" + final
 }
 
 var readOnlyCalls = map[string]bool{"fcntl": true, "newfstatat": true, "fstat": true, "statx": true, "read": true,
@@ -629,7 +741,7 @@ func (p *prepared) mergeSizes(m map[int][]int64) {
 }
 
 func writeScript(dir string, full *ck.Script, hist []ck.Op, final ck.Op) string {
-	sc := ck.Script{AutoGC: full.AutoGC, Blobs: full.Blobs, History: hist, Final: final}
+	sc := ck.Script{AutoGC: full.AutoGC, NoAutoSave: full.NoAutoSave, Blobs: full.Blobs, History: hist, Final: final}
 	f, err := os.CreateTemp(dir, "script*.json")
 	if err != nil {
 		panic(err)
@@ -655,10 +767,15 @@ func observed(root string, sc *ck.Script) *sim {
 	}
 	if idx, st := ck.ReadRawIndex(root); st == "ok" {
 		for _, m := range idx.Manifests {
+			if id, ok := byHex[m.Digest[strings.IndexByte(m.Digest, ':')+1:]]; ok {
+				s.entries[id] = true
+				s.savedEntries[id] = true
+			}
 			if r, ok := m.Annotations["org.opencontainers.image.ref.name"]; ok && strings.HasPrefix(r, "t") {
 				if v, err := strconv.Atoi(r[1:]); err == nil {
 					if id, ok := byHex[m.Digest[strings.IndexByte(m.Digest, ':')+1:]]; ok {
 						s.tags[v] = id
+						s.saved[v] = id
 					}
 				}
 			}
@@ -696,12 +813,115 @@ func (p *prepared) truth(sc *ck.Script, hist []ck.Op, final ck.Op, scriptPath st
 	return before, after, true
 }
 
+// ---------- independent ground truth for GC / Delete-with-AutoGC on universeGC ----------
+// (audit F5: the before/after states of these calls are observed on the implementation;
+// what MUST survive and, for GC, exactly what survives is computed here from the
+// generator's own edges, so a cascade or sweep that removes tagged or live content is
+// reported although the model follows the recorded unlink list)
+var gcSucc = map[int][]int{4: {3}, 5: {3, 4}, 6: {3, 5}, 7: {3, 1}} // config, layers, subject
+var gcSubject = map[int]int{5: 4, 6: 5}
+
+func closure(roots []int, present map[int]bool) map[int]bool {
+	live := map[int]bool{}
+	var visit func(int)
+	visit = func(x int) {
+		if live[x] {
+			return
+		}
+		live[x] = true // a tagged node is kept whether or not its file exists
+		if present[x] {
+			for _, y := range gcSucc[x] {
+				visit(y)
+			}
+		}
+	}
+	for _, r := range roots {
+		visit(r)
+	}
+	return live
+}
+
+// gcLive: reference mark phase of Store.GC: the closure of the named-tagged nodes, then,
+// until nothing changes, every manifest that index.json knows whose subject chain reaches
+// a live node, with its closure.
+func gcLive(before *sim) map[int]bool {
+	var roots []int
+	for _, b := range before.tags {
+		roots = append(roots, b)
+	}
+	live := closure(roots, before.blobs)
+	for changed := true; changed; {
+		changed = false
+		for m := range before.entries {
+			if live[m] || !before.blobs[m] {
+				continue
+			}
+			for cur := m; ; {
+				sub, ok := gcSubject[cur]
+				if !ok || !before.blobs[cur] {
+					break
+				}
+				if live[sub] {
+					for x := range closure([]int{m}, before.blobs) {
+						live[x] = true
+					}
+					changed = true
+					break
+				}
+				cur = sub
+			}
+		}
+	}
+	return live
+}
+
+func refCheck(sc *ck.Script, before, after *sim) []failure {
+	var fails []failure
+	add := func(sig, f string, a ...any) { fails = append(fails, failure{sig, fmt.Sprintf(f, a...)}) }
+	if !gcUniverse(sc) || before == nil {
+		return nil
+	}
+	o := sc.Final
+	switch {
+	case o.Kind == "gc":
+		live := gcLive(before)
+		for id := range before.blobs {
+			if live[id] && !after.blobs[id] {
+				add("gc-removed-live", "GC removed blob %d, which the reference mark phase keeps", id)
+			}
+			if !live[id] && after.blobs[id] {
+				add("gc-kept-garbage", "GC kept blob %d, which the reference mark phase sweeps", id)
+			}
+		}
+		if before.tagString(sc) != after.tagString(sc) {
+			add("gc-changed-tags", "GC changed the tag mapping {%s} -> {%s}", before.tagString(sc), after.tagString(sc))
+		}
+	case o.Kind == "delete" && sc.AutoGC:
+		// named tags: exactly those of the target disappear
+		for r, b := range before.saved {
+			if b != o.Blob && after.saved[r] != b {
+				add("cascade-removed-tag", "Delete(%d) with AutoGC removed tag t%d of blob %d", o.Blob, r, b)
+			}
+		}
+		var roots []int
+		for _, b := range after.saved {
+			roots = append(roots, b)
+		}
+		for id := range closure(roots, before.blobs) {
+			if id != o.Blob && before.blobs[id] && !after.blobs[id] {
+				add("cascade-removed-live", "Delete(%d) with AutoGC removed blob %d, which a tagged manifest still reaches", o.Blob, id)
+			}
+		}
+	}
+	return fails
+}
+
 // execSegment runs one earlier process on the prepared directory: history, then
 // the final operation killed at window call seg.K.  The crash itself is a case
 // (model comparison + oracle) of the script truncated at this segment.
 func execSegment(sc *ck.Script, i int, p *prepared) bool {
 	seg := &sc.Pre[i]
-	trunc := &ck.Script{AutoGC: sc.AutoGC, Blobs: sc.Blobs, Pre: sc.Pre[:i], History: seg.History, Final: seg.Final}
+	trunc := &ck.Script{AutoGC: sc.AutoGC, NoAutoSave: sc.NoAutoSave, Blobs: sc.Blobs, Pre: sc.Pre[:i], History: seg.History, Final: seg.Final}
 	scriptPath := writeScript(p.dir, sc, seg.History, seg.Final)
 	rec := p.fresh("prerec")
 	tr, err := ck.Run(exe, rec, scriptPath, filepath.Dir(rec), nil)
@@ -732,6 +952,17 @@ func execSegment(sc *ck.Script, i int, p *prepared) bool {
 		return false
 	}
 	k := seg.K % len(win)
+	if seg.K < 0 {
+		// "just after the blob was renamed into place"
+		k = len(win) - 1
+		for i, st := range recSteps {
+			if strings.HasPrefix(st.Text, "rename:T") && st.Index+1 < len(win) {
+				k = st.Index + 1
+				break
+			}
+			_ = i
+		}
+	}
 	ktr, err := ck.Run(exe, p.base, scriptPath, p.dir, &ck.Inject{Name: win[k].Name, Ord: win[k].Ord})
 	if err == ck.ErrTimeout {
 		run.Count("script-abandoned-child-timeout")
@@ -749,7 +980,7 @@ func execSegment(sc *ck.Script, i int, p *prepared) bool {
 	doneSteps := nm.Project(done, map[int64]string{})
 	seg.J = len(doneSteps)
 	state := ck.ObserveDir(p.base, sc, p.sizes)
-	fails := oracle(p.base, sc, before, after)
+	fails := oracle(p.base, trunc, before, after)
 	id := run.NewID()
 	judged := strings.HasPrefix(stepsText(recSteps)+" ", stepsText(doneSteps)+" ") || len(doneSteps) == 0
 	if judged {
@@ -763,6 +994,7 @@ func execSegment(sc *ck.Script, i int, p *prepared) bool {
 	}
 	run.Count("earlier-crashes")
 	p.sim = observed(p.base, sc)
+	p.sim.noAuto, p.sim.gcUniv = sc.NoAutoSave, gcUniverse(sc)
 	return judged // the model cannot follow a cascade whose order it was not told
 }
 
@@ -808,6 +1040,9 @@ func runMain(sc *ck.Script, p *prepared, onlyK int, allK bool) {
 	}
 	recText := stepsText(steps)
 	run.Count("final:" + sc.Final.Kind)
+	if fe := encOp(sc, sc.Final, unlinked(steps)); strings.HasPrefix(fe, "dgc:") && strings.Count(fe, ":") >= 2 {
+		run.Count("composite-finals-with-cascade")
+	}
 	run.Count(fmt.Sprintf("history-len:%d", len(sc.History)))
 	run.Count(fmt.Sprintf("earlier-crashes-in-script:%d", len(sc.Pre)))
 	run.Count(fmt.Sprintf("window-syscalls:%02d", (len(win)/10)*10))
@@ -853,10 +1088,14 @@ func runMain(sc *ck.Script, p *prepared, onlyK int, allK bool) {
 			run.Count("kill-point-differs-from-request")
 		}
 		run.Count("kills")
+		if strings.Count(o.steps, "write:T") >= 1 && strings.Count(recText, "write:T") >= 2 && !strings.Contains(o.steps, "rename:T") {
+			run.Count("multi-write-push-kills") // cut in the middle of the content of a blob written in several units
+		}
 	}
 	// the completed run: effects of everything that returned are present
 	finalState := ck.ObserveDir(rec, sc, sizes)
-	emit(outcome{k: len(win), j: len(steps), steps: recText, state: finalState, fails: oracle(rec, sc, after, after)})
+	emit(outcome{k: len(win), j: len(steps), steps: recText, state: finalState,
+		fails: append(oracle(rec, sc, after, after), refCheck(sc, before, after)...)})
 	run.Sample(map[string]any{"final": sc.Final.String(), "history": len(sc.History), "earlier_crashes": len(sc.Pre),
 		"window_syscalls": len(win), "micro_steps": stepsText(steps)})
 
@@ -901,6 +1140,8 @@ func runMain(sc *ck.Script, p *prepared, onlyK int, allK bool) {
 func runScript(sc *ck.Script, onlyK int, allK bool) {
 	p := newPrepared()
 	defer p.close()
+	p.sim.noAuto = sc.NoAutoSave
+	p.sim.gcUniv = gcUniverse(sc)
 	for i := range sc.Pre {
 		if !execSegment(sc, i, p) {
 			return
@@ -975,6 +1216,12 @@ func oracle(root string, sc *ck.Script, before, after *sim) []failure {
 			continue
 		}
 		onDisk[id] = true
+		if sc.Final.Kind == "push" && sc.Final.Blob == id && undecodable[id] && !gcUniverse(sc) {
+			// a manifest that does not decode is stored, found unindexable and removed again:
+			// between the two it is a complete, correctly named blob that no index entry names
+			// (the quiescent state in the middle of that call)
+			continue
+		}
 		if !before.blobs[id] && !after.blobs[id] {
 			add("blob-unexpected", "blob %d exists although it was neither present before nor after the interrupted operation", id)
 		}
@@ -993,10 +1240,30 @@ func oracle(root string, sc *ck.Script, before, after *sim) []failure {
 		for _, m := range idx.Manifests {
 			fi, err := os.Stat(ck.BlobPath(root, m.Digest))
 			if err != nil {
-				add("index-dangling", "index.json entry %s names a missing blob", m.Digest)
+				sig := "index-dangling"
+				if id, ok := byHex[m.Digest[strings.IndexByte(m.Digest, ':')+1:]]; ok && sc.NoAutoSave && len(sc.Pre) == 0 && deletedAfterLastSave(sc, id) {
+					// AutoSaveIndex off: Delete unlinked a blob that the last saved index.json names
+					// (known finding; only this mechanism gets the signature)
+					sig = "autosave-off-index-dangling"
+				}
+				add(sig, "index.json entry %s names a missing blob", m.Digest)
 			} else if fi.Size() != m.Size {
 				add("index-dangling", "index.json entry %s has size %d, the blob %d", m.Digest, m.Size, fi.Size())
 			}
+		}
+	}
+	// the entries of index.json (named and digest-only) are those before or those after; a
+	// cascade or a sweep passes through intermediate sets (C10_crash_safe_composite), a plain
+	// operation does not
+	if status == "ok" && !(sc.Final.Kind == "gc" || (sc.Final.Kind == "delete" && sc.AutoGC)) {
+		cur := newSim()
+		for _, m := range idx.Manifests {
+			if id, ok := byHex[m.Digest[strings.IndexByte(m.Digest, ':')+1:]]; ok {
+				cur.savedEntries[id] = true
+			}
+		}
+		if g := cur.entryString(); g != before.entryString() && g != after.entryString() {
+			add("index-entries-mixed", "index.json has entries for {%s}, neither those before {%s} nor those after {%s}", g, before.entryString(), after.entryString())
 		}
 	}
 	// the directory can be opened again, and the tag mapping is the one before or the one after
@@ -1037,6 +1304,24 @@ func oracle(root string, sc *ck.Script, before, after *sim) []failure {
 	return fails
 }
 
+// deletedAfterLastSave: was blob id deleted by an operation of the script that came
+// after the last COMPLETED SaveIndex?
+func deletedAfterLastSave(sc *ck.Script, id int) bool {
+	last := -1
+	for i, o := range sc.History {
+		if o.Kind == "saveindex" {
+			last = i
+		}
+	}
+	ops := append(append([]ck.Op{}, sc.History...), sc.Final)
+	for i, o := range ops {
+		if i > last && o.Kind == "delete" && o.Blob == id {
+			return true
+		}
+	}
+	return false
+}
+
 // ---------- main ----------
 
 func genHistory(r *common.Rand, sc *ck.Script, s *sim, n int) []ck.Op {
@@ -1049,10 +1334,18 @@ func genHistory(r *common.Rand, sc *ck.Script, s *sim, n int) []ck.Op {
 	return h
 }
 
-func gcUniverse(sc *ck.Script) bool { return len(sc.Blobs) == 7 }
+func gcUniverse(sc *ck.Script) bool { return len(sc.Blobs) == 7 && sc.Blobs[6].Kind == "manifest" }
 
 func runGenerated(r *common.Rand, histLen int, kind string, big bool, allK bool, crashes int) {
-	runGeneratedIn(r, &ck.Script{Blobs: universe(r, big)}, histLen, kind, allK, crashes)
+	sc := &ck.Script{Blobs: universe(r, big)}
+	// the store's default is AutoGC on: a share of the plain scripts runs with it (their
+	// cascades depend on Go's map order; kill runs whose order differs from the recorded one
+	// are judged by the oracle only)
+	if strings.HasPrefix(kind, "delete") && r.Chance(1, 3) {
+		sc.AutoGC = true
+		run.Count("plain-universe-autogc")
+	}
+	runGeneratedIn(r, sc, histLen, kind, allK, crashes)
 }
 
 func runGeneratedIn(r *common.Rand, sc *ck.Script, histLen int, kind string, allK bool, crashes int) {
@@ -1064,6 +1357,8 @@ func runGeneratedIn(r *common.Rand, sc *ck.Script, histLen int, kind string, all
 	}
 	p := newPrepared()
 	defer p.close()
+	p.sim.noAuto = sc.NoAutoSave
+	p.sim.gcUniv = gcUniverse(sc)
 	for i := 0; i < crashes; i++ {
 		s := p.sim.clone()
 		seg := ck.Segment{History: genHistory(r, sc, s, r.Intn(4))}
@@ -1081,6 +1376,14 @@ func runGeneratedIn(r *common.Rand, sc *ck.Script, histLen int, kind string, all
 		if !execSegment(sc, i, p) {
 			return
 		}
+	}
+	if kind == "tag-undecodable-after-crash" && crashes == 0 && !sc.NoAutoSave {
+		// an earlier process died right after it had renamed the undecodable manifest into blobs/
+		sc.Pre = append(sc.Pre, ck.Segment{Final: ck.Op{Kind: "push", Blob: 7}, K: -1})
+		if !execSegment(sc, len(sc.Pre)-1, p) {
+			return
+		}
+		histLen = 0
 	}
 	s := p.sim.clone()
 	sc.History = genHistory(r, sc, s, histLen)
@@ -1113,6 +1416,7 @@ func main() {
 		os.Exit(ck.ChildMain(os.Args[2], os.Args[3]))
 	}
 	run = common.Start("C10")
+	syscall.Umask(0o022)
 	defer run.Finish()
 	run.Rule = "a case = (script, kill point): the child is killed by strace at the entry of one system call of the final operation; distinct = distinct (final operation, number of completed micro-steps, number of earlier crashes); non-trivial = killed strictly inside the operation's mutating steps (plus every non-empty recorded script)"
 	var err error
@@ -1145,10 +1449,19 @@ func main() {
 				(!run.Thorough() && h == 1 && kind == "push-raw-multi") // > 1 MiB: many write units
 			crashes := 0
 			if h%3 == 2 {
-				crashes = 1 + r.Intn(2) // the directory was left behind by one or two killed processes
+				crashes = 1 + r.Intn(run.Scale(2, 4)) // the directory was left behind by killed processes
 				histLen = r.Intn(4)
 			}
 			runGenerated(r, histLen, kind, big, run.Thorough(), crashes)
+		}
+	}
+	// AutoSaveIndex off: only SaveIndex writes index.json
+	for h := 0; h < run.Scale(1, 8); h++ {
+		for _, kind := range []string{"push-manifest", "tag-new", "tag-move", "untag", "delete-tagged", "delete-digest-only",
+			"delete-raw", "saveindex", "saveindex-after-delete", "delete-saved-tagged"} {
+			sc := &ck.Script{Blobs: universe(r, false), NoAutoSave: true}
+			run.Count("autosave-off-scripts")
+			runGeneratedIn(r, sc, r.Intn(6), kind, run.Thorough(), 0)
 		}
 	}
 	// the initialisation itself, killed at every system call
@@ -1168,5 +1481,41 @@ func main() {
 			}
 			runGeneratedIn(r, sc, r.Intn(5), kind, run.Thorough(), crashes)
 		}
+	}
+	checkFloors()
+}
+
+// checkFloors: a run that hardly killed anything proves nothing.  If the crash
+// layer degraded (injections missing their window, cascades unjudged, a stream
+// that produced no case) the harness fails (layer R), it does not pass silently.
+func checkFloors() {
+	d := run.Dist
+	var bad []string
+	need := func(key string, min int) {
+		if d[key] < min {
+			bad = append(bad, fmt.Sprintf("%s = %d < %d", key, d[key], min))
+		}
+	}
+	need("kills", run.Scale(300, 3000))
+	need("earlier-crashes", run.Scale(15, 150))
+	need("final:gc", run.Scale(4, 30))
+	need("final:init", 1)
+	need("autosave-off-scripts", run.Scale(8, 60))
+	need("final:reopen", run.Scale(3, 20))
+	need("composite-finals-with-cascade", run.Scale(2, 30))
+	need("multi-write-push-kills", run.Scale(10, 100))
+	if m, k := d["kill-missed-window"], d["kills"]; m*20 > k+m {
+		bad = append(bad, fmt.Sprintf("%d of %d injected kills missed the window (> 5%%)", m, k+m))
+	}
+	if u, k := d["cascade-order-differs-unjudged"], d["kills"]; u*10 > k {
+		bad = append(bad, fmt.Sprintf("%d kill cases unjudged by the model (> 10%%)", u))
+	}
+	if t := d["script-abandoned-child-timeout"]; t > run.Scale(5, 40) {
+		bad = append(bad, fmt.Sprintf("%d scripts abandoned on child timeouts", t))
+	}
+	if len(bad) > 0 {
+		run.Finish()
+		fmt.Fprintln(os.Stderr, "C10 coverage floor not reached: "+strings.Join(bad, "; "))
+		os.Exit(3)
 	}
 }
